@@ -89,14 +89,16 @@ MethodsC06 == { MthP(verb, ps, ret, errs, resp) : verb \in {"POST"}, ps \in Para
 
 \* ---- C05 / C06: identifier lists - func (a, b, c string, d int) - must not disturb the signature order ---------------------------
 PG(n, t, k) == Prm(n, t, k, "", "")
+G(ps, groups) == [ps |-> ps, groups |-> groups]
 GroupedLists ==
-       { <<PG("a", "string", k1), PG("b", "string", k2), PG("c", "string", k3), PG("d", t4, k4)>> :
+       { G(<<PG("a", "string", k1), PG("b", "string", k2), PG("c", "string", k3), PG("d", t4, k4)>>, <<3, 1>>) :
               k1 \in {"Query", "Header", "Path"}, k2 \in {"Query", "Header", "Path"}, k3 \in {"Query", "Header", "Path"}, t4 \in {"string", "int"}, k4 \in {"Query", "Header"} }
-  \cup { <<Prm("ctx", "context.Context", "Context", "", ""), PG("a", "int", k1), PG("b", "int", "Query"), PG("c", "int", "Header"), PG("d", "string", k4), PG("e", "string", "Query")>> :
-              k1 \in {"Query", "Path"}, k4 \in {"Query", "Header", "Path"} }
-  \cup { <<PG("a", "string", "Path"), PG("b", "string", "Query"), PG("c", "*int", "Query"), PG("d", "*int", "Header"), PG("f", "*int", "Query"), PG("g", "string", k)>> : k \in {"Query", "Header"} }
-  \cup { <<PG("a", "string", "FormField"), PG("b", "string", "FormField"), PG("c", "string", "Query"), PG("d", "int", "FormField")>> }
-MethodsGrouped == { MthP("POST", ps, ret, <<>>, 0) @@ [grouped |-> TRUE] : ps \in GroupedLists, ret \in {<<"error">>} }
+  \cup { G(<<Prm("ctx", "context.Context", "Context", "", ""), PG("a", "int", k1), PG("b", "int", "Query"), PG("c", "int", "Header"), PG("d", t, k4), PG("e", t, "Query")>>, <<1, 3, 2>>) :
+              k1 \in {"Query", "Path"}, k4 \in {"Query", "Header", "Path"}, t \in {"string", "int"} }
+  \cup { G(<<PG("a", "string", "Path"), PG("b", "string", "Query"), PG("c", "*int", "Query"), PG("d", "*int", "Header"), PG("f", "*int", "Query"), PG("g", t, k)>>, <<2, 3, 1>>) :
+              k \in {"Query", "Header"}, t \in {"string", "*int"} }
+  \cup { G(<<PG("a", "string", "FormField"), PG("b", "string", "FormField"), PG("c", "string", "Query"), PG("d", t, "FormField")>>, <<3, 1>>) : t \in {"string", "int"} }
+MethodsGrouped == { MthP("POST", g.ps, ret, <<>>, 0) @@ [groups |-> g.groups] : g \in GroupedLists, ret \in {<<"error">>} }
 
 \* ---- C07 / C11: type graphs --------------------------------------------------------------------------------------------
 FldE(t) == [name |-> "", type |-> t, json |-> "", valid |-> "", desc |-> "", embed |-> TRUE, deprecated |-> FALSE]
@@ -189,6 +191,9 @@ MethodsC14 ==    { [MthP("POST", <<Prm("e", "p1.Hostile", "Body", "", "")>>, ret
             \cup { [MthP("GET", <<Prm("b", "string", "Query", "", "")>>, <<"[]p1.Hostile", "error">>, <<>>, 0) EXCEPT !.anns = <<a>>] : a \in HostileAnns }
             \cup { [MthP("GET", <<Prm("b", "p1.Hostile", "Query", "", "")>>, <<"error">>, <<>>, 0) EXCEPT !.verb = v] : v \in {"GET", "TRACE", ""} }
 TypeSetsC14 == HostileTypeSets \cup UnsupportedTypeSets
+\* every unsupported / unusual type shape, as a body and as a result, in both dialects (exhaustive: few and each one matters)
+MethodsC14types == { MthP("POST", <<Prm("e", "p1.Hostile", "Body", "", "")>>, <<"error">>, <<>>, 0),
+                     MthP("GET", <<>>, <<"[]p1.Hostile", "error">>, <<>>, 0) }
 
 \* ---- C09: names and packages that stress the string-built import aliases (ParamN<name>, ResponseN<type>) ----------------------
 Cfg9(vt, ge, vr) == [engine |-> "gin", version |-> "3.0.0", enforce |-> FALSE, default |-> NoSec, schemes |-> <<"s1">>,
